@@ -7342,7 +7342,12 @@ fn pending_expr_owns_block(expr_state: &ExpressionState, expr: &Expression) -> b
         )
 }
 
-fn eval_break(env: &mut Env, expr_value_is_used: bool) {
+fn eval_break(env: &mut Env, _expr_value_is_used: bool) {
+    // Whether the value of the loop we are leaving is used. It is the
+    // loop's value (not the value of the `break` expression itself)
+    // that the surrounding code is waiting for.
+    let mut loop_value_is_used = false;
+
     // Pop all the currently evaluating expressions until we are no
     // longer inside the innermost loop.
     while let Some((expr_state, expr)) = env.current_frame_mut().exprs_to_eval.pop() {
@@ -7375,6 +7380,7 @@ fn eval_break(env: &mut Env, expr_value_is_used: bool) {
                     env.current_frame_mut().bindings.pop_block();
                 }
 
+                loop_value_is_used = expr.value_is_used;
                 env.current_frame_mut()
                     .exprs_to_eval
                     .push((ExpressionState::EvaluatedSubexpressions, Rc::clone(&expr)));
@@ -7390,6 +7396,7 @@ fn eval_break(env: &mut Env, expr_value_is_used: bool) {
                 env.pop_value()
                     .expect("Index used by `for` should be present");
 
+                loop_value_is_used = expr.value_is_used;
                 env.current_frame_mut()
                     .exprs_to_eval
                     .push((ExpressionState::EvaluatedSubexpressions, Rc::clone(&expr)));
@@ -7411,7 +7418,7 @@ fn eval_break(env: &mut Env, expr_value_is_used: bool) {
     }
 
     // Loops always evaluate to unit.
-    if expr_value_is_used {
+    if loop_value_is_used {
         env.push_value(Value::unit());
     }
 }
